@@ -119,7 +119,11 @@ fn stale_entries(w: &World) -> Vec<(String, String)> {
 }
 
 #[derive(Clone)]
-pub struct C19Model {}
+pub struct C19Model {
+    /// the name under which `ca` knows its parent (the parent calls itself
+    /// "parent" in every configuration)
+    pub parent_local: String,
+}
 
 impl Model for C19Model {
     fn alphabet(&mut self, w: &World, _depth: usize, _path: &[Op]) -> Vec<Op> {
@@ -132,7 +136,6 @@ impl Model for C19Model {
             Op::Entitle { parent: p(), child: c(), res: r3("AS65000", "10.0.0.0/16", "") },
             Op::Entitle { parent: p(), child: c(), res: c01::full_ca_res() },
             Op::RemoveChild { parent: p(), child: c() },
-            Op::LinkChild { parent: p(), child: c(), res: c01::full_ca_res() },
             Op::RemovePublisher { publisher: c() },
             Op::AddPublisher { ca: c() },
             Op::Suspend { parent: p(), child: c() },
@@ -142,6 +145,14 @@ impl Model for C19Model {
             Op::RollInit { ca: c() },
             Op::RollActivate { ca: c() },
         ];
+        if self.parent_local == "parent" {
+            // (registers the child again and tells it about the parent under
+            // the parent's own name)
+            ops.push(Op::LinkChild { parent: p(), child: c(), res: c01::full_ca_res() });
+        } else {
+            // the CA gives up its (differently named) parent
+            ops.push(Op::RemoveParent { ca: c(), parent: self.parent_local.clone() });
+        }
         if w.cfg.disk {
             ops.push(Op::Restart);
         }
@@ -198,6 +209,12 @@ impl Model for C19Model {
             let Ok(xca) = cm.get_ca(&ca(x)) else { continue };
             let parents: Vec<String> = xca.parents().map(|p| p.to_string()).collect();
             for p in parents {
+                // the handle the parent calls itself by (the CA may know it
+                // under another name)
+                let real = xca
+                    .parent(&parent_h(&p))
+                    .map(|c| c.parent_server_info().parent_handle.to_string())
+                    .unwrap_or_else(|_| p.clone());
                 // parent exchange
                 let attempt = w.sync_parent(x, &p);
                 hdr.counters[if attempt.is_ok() { 0 } else { 1 }].fetch_add(1, Ordering::Relaxed);
@@ -229,8 +246,8 @@ impl Model for C19Model {
                     }
                     (Ok(_), None) => {
                         // entitlements last returned by the parent
-                        if p != "ta"
-                            && let Ok(pca) = cm.get_ca(&ca(&p))
+                        if real != "ta"
+                            && let Ok(pca) = cm.get_ca(&ca(&real))
                             && let Ok(list) = pca.list(&child_h(x), &w.config.issuance_timing)
                         {
                             let mut want = rpki::repository::resources::ResourceSet::default();
@@ -246,8 +263,8 @@ impl Model for C19Model {
                             hdr.counters[2].fetch_add(1, Ordering::Relaxed);
                         }
                         // the parent's view of this child's last request
-                        if p != "ta"
-                            && let Ok(pst) = cm.get_ca_status(&ca(&p))
+                        if real != "ta"
+                            && let Ok(pst) = cm.get_ca_status(&ca(&real))
                         {
                             match pst.children().get(&child_h(x)) {
                                 None => v.push((
@@ -374,11 +391,32 @@ pub fn run(tier: &Tier, args: &[String]) -> i32 {
     let cap = crate::report::arg_value(args, "--cap")
         .and_then(|d| d.parse().ok())
         .unwrap_or(if tier.thorough { 1500 } else { 50 });
-    let configs = vec![Config {
-        name: "w3".into(),
-        build: Box::new(|| c01::build_w3(c01::world_cfg(100, 90))),
-        model: C19Model {},
-    }];
+    let configs = vec![
+        Config {
+            name: "w3".into(),
+            build: Box::new(|| c01::build_w3(c01::world_cfg(100, 90))),
+            model: C19Model { parent_local: "parent".into() },
+        },
+        // the CA knows its parent under a name of its own choosing
+        Config {
+            name: "w3-renamed-parent".into(),
+            build: Box::new(|| {
+                let f = c01::full_ca_res();
+                (|| -> crate::world::KResult<World> {
+                    let w = World::build_ta_parent(c01::world_cfg(100, 90))?;
+                    w.add_ca("ca")?;
+                    w.add_child_link_as("parent", "ca", "upstream", crate::world::res(&f.0, &f.1, &f.2))?;
+                    w.pump().map_err(krill::commons::error::Error::custom)?;
+                    w.add_ca("gc")?;
+                    w.add_child_link("ca", "gc", crate::world::res("AS65001", "10.0.0.0/24", ""))?;
+                    w.pump().map_err(krill::commons::error::Error::custom)?;
+                    Ok(w)
+                })()
+                .map_err(|e| e.to_string())
+            }),
+            model: C19Model { parent_local: "upstream".into() },
+        },
+    ];
     e1run::run(
         Spec { property: "C19".into(), configs, depth, wall_cap_s: cap, procs: 16, min_states: 20 },
         &mut out,
